@@ -3,7 +3,8 @@
    check compares bit for bit with draw_line / get_line_pts, or about the boolean checker
    (Spec.Lines.line_ok / batch_ok) that is also run on the implementation's own output. *)
 From Coq Require Import ZArith List Bool.
-From Centro Require Import Model.Lines Spec.Lines Proofs.Bres Proofs.LinesScalar Proofs.LinesVector.
+From Centro Require Import Model.Lines Spec.Lines Proofs.Bres Proofs.LinesScalar Proofs.LinesVector
+  Proofs.LinesFast Proofs.LinesGeom.
 Import ListNotations.
 Open Scope Z_scope.
 
@@ -49,3 +50,71 @@ Theorem C16_batch_checker : forall ls,
   let '(index, counts, pts) := get_line_pts ls in batch_ok ls index counts pts 0 = true.
 Proof. exact get_line_pts_batch_ok. Qed.
 Print Assumptions C16_batch_checker.
+
+(* the linear executable forms that are extracted and compared with the implementation equal the
+   line-level models (while loop with fuel; two lock-step passes with compaction and
+   last-write-wins scatter) for ALL end points / ALL batches *)
+Theorem C16_draw_line_fast_eq : forall y0 x0 y1 x1,
+  draw_line_pts y0 x0 y1 x1 = Some (draw_line_fast y0 x0 y1 x1).
+Proof. exact draw_line_fast_eq. Qed.
+Print Assumptions C16_draw_line_fast_eq.
+
+Theorem C16_get_line_pts_fast_eq : forall ls, get_line_pts_fast ls = get_line_pts ls.
+Proof. exact get_line_pts_fast_eq. Qed.
+Print Assumptions C16_get_line_pts_fast_eq.
+
+(* draw_line on an image (any content, any value, all end points): the loop terminates, exactly
+   the points of the sequence carry the value afterwards, all other pixels are unchanged, and no
+   pixel is written twice (max(|dy|,|dx|)+1 distinct pixels) *)
+Theorem C16_draw_line_pixels : forall im v y0 x0 y1 x1,
+  exists pts, draw_line_pts y0 x0 y1 x1 = Some pts /\
+    LineSpec ((y0, x0), (y1, x1)) pts /\ NoDup pts /\
+    (forall p, In p pts -> paint im pts v p = v) /\
+    (forall p, ~ In p pts -> paint im pts v p = im p).
+Proof. exact draw_line_pixels. Qed.
+Print Assumptions C16_draw_line_pixels.
+
+(* consecutive points of any sequence meeting LineSpec are 8-neighbours (Chebyshev distance 1) *)
+Theorem C16_8_connected : forall l pts, LineSpec l pts ->
+  forall n, (S n < length pts)%nat -> cheb (nth n pts (0, 0)) (nth (S n) pts (0, 0)) = 1.
+Proof. exact LineSpec_8conn. Qed.
+Print Assumptions C16_8_connected.
+
+(* LineSpec is symmetric under swapping the end points ... *)
+Theorem C16_LineSpec_reverse : forall i0 j0 i1 j1 pts,
+  LineSpec ((i0, j0), (i1, j1)) pts -> LineSpec ((i1, j1), (i0, j0)) (rev pts).
+Proof. exact LineSpec_rev. Qed.
+Print Assumptions C16_LineSpec_reverse.
+
+(* ... but the rasteriser is not: "draw_line(p1, p0) is the reverse of draw_line(p0, p1)" is
+   refuted by the faithful model ((0,0)-(1,2): the tie at the middle point is broken in the
+   direction of travel); confirmed on the real code by the harness (class "rev") *)
+Theorem C16_draw_line_reverse_refuted :
+  exists y0 x0 y1 x1,
+    draw_line_pts y0 x0 y1 x1 <> option_map (@rev (Z * Z)) (draw_line_pts y1 x1 y0 x0).
+Proof. exact draw_line_reverse_refuted. Qed.
+Print Assumptions C16_draw_line_reverse_refuted.
+
+(* the exact relation: the reversed line from the other end is a correct line for (p0, p1), and
+   two correct lines agree everywhere except at exact ties, where they differ by one pixel *)
+Theorem C16_draw_line_reverse_spec : forall y0 x0 y1 x1,
+  exists pts, draw_line_pts y1 x1 y0 x0 = Some pts /\ LineSpec ((y0, x0), (y1, x1)) (rev pts).
+Proof. exact draw_line_reverse_spec. Qed.
+Print Assumptions C16_draw_line_reverse_spec.
+
+Theorem C16_unique_up_to_ties : forall i0 j0 i1 j1 pts pts',
+  LineSpec ((i0, j0), (i1, j1)) pts -> LineSpec ((i0, j0), (i1, j1)) pts' ->
+  length pts = length pts' /\
+  forall n, (n < length pts)%nat ->
+    let p := nth n pts (0, 0) in let p' := nth n pts' (0, 0) in
+    let di := Z.abs (i1 - i0) in let dj := Z.abs (j1 - j0) in let k := Z.of_nat n in
+    (dj <= di -> fst p = fst p' /\
+       (snd p = snd p' \/
+        (Z.abs (snd p - snd p') = 1 /\
+         Z.abs (2 * (di * (snd p - j0) - sgn_to j0 j1 * (dj * k))) = di))) /\
+    (di < dj -> snd p = snd p' /\
+       (fst p = fst p' \/
+        (Z.abs (fst p - fst p') = 1 /\
+         Z.abs (2 * (dj * (fst p - i0) - sgn_to i0 i1 * (di * k))) = dj))).
+Proof. exact LineSpec_unique_up_to_ties. Qed.
+Print Assumptions C16_unique_up_to_ties.
